@@ -30,6 +30,12 @@ fn arg(args: &[String], name: &str) -> Option<String> {
 
 fn main() {
     let args: Vec<String> = std::env::args().collect();
+    if args.len() >= 2 && args[1] == "list" {
+        for m in mon::all() {
+            println!("{} {}", m.id(), m.corpus_len());
+        }
+        return;
+    }
     if args.len() < 3 {
         eprintln!("usage: ohmon run <id> --seed S --from A --count N --profile P --out FILE [--hashes FILE] [--thorough] [--journal] [--limit-s S]");
         eprintln!("       ohmon case <id> --seed S --case I --profile P [--thorough]");
